@@ -22,15 +22,27 @@ Oracle, compared after every operation against the labelled stream:
     arrived, PotentialDataLoss for a close-delimited body, another failure for
     a truncated Content-Length/chunked body — and never before that;
   * no exception escapes from dataReceived/connectionLost/deliverBody.
+
+Families added after seeded changes (DESIGN 12): the second request issued re-entrantly from the first response's body
+connectionLost; the body consumer that hangs up inside dataReceived on a transport reporting the loss at once; and
+  * status codes: the final status is drawn from the usual few, from the whole IANA registry, or is any number 200-599;
+    the model takes the framing from RFC 9112 section 6.3 alone (body-less: 1xx, 204, 304, responses to HEAD; everything
+    else by Transfer-Encoding / Content-Length / close); interim responses use any 1xx code but 101;
+  * application-initiated loss: HTTP11ClientProtocol.abort() called by the scheduler or from the request callback / the
+    body consumer's connectionMade / dataReceived; the transport then reports the close; same expectations as any loss;
+  * request body in transit: a POST whose IBodyProducer (Content-Length or chunked) is still producing while response
+    bytes arrive, the connection is lost, or abort() is called; the producer's writes and its end are scheduler ops.
 """
 import h11
+from zope.interface import implementer
 
-from twisted.internet import error
+from twisted.internet import defer, error
 from twisted.internet.protocol import Protocol
 from twisted.python.failure import Failure
 from twisted.web import _newclient
 from twisted.web.http import PotentialDataLoss
 from twisted.web.http_headers import Headers
+from twisted.web.iweb import IBodyProducer, UNKNOWN_LENGTH
 from detsim import net
 
 ID = "C23"
@@ -44,13 +56,27 @@ BATCH = 250
 RUN_WALL_LIMIT_S = 120   # runs take milliseconds; generous so that an overloaded host is not mistaken for a hang
 COMPONENTS = {"real": ["twisted.web._newclient.HTTP11ClientProtocol", "twisted.web._newclient.HTTPClientParser", "twisted.web._newclient.Response",
                        "twisted.web._newclient.TransportProxyProducer", "twisted.web.http._IdentityTransferDecoder/_ChunkedTransferDecoder",
-                       "twisted.web._newclient.Request.writeTo (body-less)"],
-              "stub": ["TCP transport (detsim.net.SimTransport)", "scripted HTTP server (h11 / hand serialiser)", "body protocol (recorder that pauses/resumes)"]}
-RULE = ("run = 1-2 requests on one connection; per request a drawn response spec, serialiser, loss offset k in [0,len], delivery segmentation, "
-        "deliverBody timing and pause/resume schedule; non-trivial = the connection was lost strictly inside a response (0<k<len) or the "
+                       "twisted.web._newclient.Request.writeTo (body-less; in a few runs with a body producer still in transit)",
+                       "twisted.web._newclient.HTTP11ClientProtocol.abort"],
+              "stub": ["TCP transport (detsim.net.SimTransport)", "scripted HTTP server (h11 / hand serialiser)", "body protocol (recorder that pauses/resumes)",
+                       "request body producer (scheduler-driven IBodyProducer)"]}
+RULE = ("run = 1-2 requests on one connection; per request a drawn response spec (status code: common / any registered / any 200-599), "
+        "serialiser, loss offset k in [0,len], delivery segmentation, "
+        "deliverBody timing and pause/resume schedule; in a share of the rounds the loss is caused by the application (abort() from the "
+        "scheduler, the request callback or the body consumer) and/or the request has a body still in transit; non-trivial = the connection was lost strictly inside a response (0<k<len) or the "
         "response used chunked/close framing or an interim 1xx, and at least one delivery was segmented")
-ASSUMPTIONS = ["responses are well-formed HTTP/1.x messages (CRLF line endings); requests have no body (C24 covers request bodies)",
-               "connection loss may be reported while the transport is paused (ITransport allows it)"]
+ASSUMPTIONS = ["responses are well-formed HTTP/1.x messages (CRLF line endings); requests have no body (C24 covers request bodies) except in the "
+               "request-body-in-transit family, whose producer writes exactly its announced length and never fails",
+               "connection loss may be reported while the transport is paused (ITransport allows it)",
+               "a transport told to close (abort(), or the client's own loseConnection) delivers no further bytes and reports the loss later",
+               "while a request body is in transit the statement's 'once its headers are complete' gives no verdict on the moment: the check "
+               "only demands no early result, the response once it is complete or the request is written, and exactly one result (response or "
+               "failure) once the connection is lost",
+               "status codes outside 200-599 and the interim code 101 are not generated",
+               "knobs abort_in_close_body / abort_while_transmitting (p=0.75 each, only in rounds with an abort) gate the preconditions of two "
+               "genuine defects found by these families and repaired in /repo in round 5 (864f11a: abort() inside a close-delimited body, consumer "
+               "never told; ed25b2f: abort() while the request body is in transit, request Deferred never fired) so that the other abort rounds "
+               "exercise everything else whether or not those defects are present"]
 
 PIECES = [None, 1, 2, 3, 5, 8, 17, 64]
 
@@ -102,6 +128,9 @@ class Body(Protocol):
 
     def connectionMade(self):
         self.rec["made"] += 1
+        hook = self.rec.get("on_made")
+        if hook is not None:
+            hook(self)
         if self.pause_p and self.sim.draw_bool(self.pause_p, "pause_on_connect"):
             self.sim.probe("body_paused")
             self.transport.pauseProducing()
@@ -124,25 +153,78 @@ class Body(Protocol):
             hook()
 
 
+@implementer(IBodyProducer)
+class RequestBody:
+    """A request body the scheduler produces piece by piece: while it is unfinished the request is still being transmitted."""
+
+    def __init__(self, length, total):
+        self.length = length          # announced length, or UNKNOWN_LENGTH (chunked request)
+        self.left = total             # bytes still to be written
+        self.consumer = None
+        self.d = None
+        self.open = True              # neither finished nor told to stop
+        self.stopped = 0
+
+    def startProducing(self, consumer):
+        self.consumer = consumer
+        self.d = defer.Deferred()
+        return self.d
+
+    def write(self, n):
+        n = min(n, self.left)
+        self.left -= n
+        self.consumer.write(b"q" * n)
+
+    def finish(self):
+        self.open = False
+        self.d.callback(None)
+
+    def stopProducing(self):
+        self.stopped += 1
+        self.open = False
+
+    def pauseProducing(self):
+        pass
+
+    def resumeProducing(self):
+        pass
+
+
 # ------------------------------------------------------------------ response generation
 
 HDR_POOL = [(b"X-A", b"1"), (b"x-b", b"two words"), (b"Content-Type", b"text/plain"), (b"Set-Cookie", b"a=1"),
             (b"Set-Cookie", b"b=2"), (b"ETag", b'"v"'), (b"X-Long", b"v" * 70)]
 BODY_ALPHA = b"ab\r\n0;:\x00\xff"
+# Final status codes of the IANA registry (RFC 9110 and extensions).  Message framing (RFC 9112 section 6.3) makes exactly
+# 204, 304 (and every response to HEAD, and the interim 1xx) body-less; every other code - whatever its semantics say about
+# content - is framed by Transfer-Encoding / Content-Length / connection close, which is what the labelled stream encodes.
+REGISTERED_CODES = ([200, 201, 202, 203, 204, 205, 206, 207, 208, 226, 300, 301, 302, 303, 304, 305, 307, 308]
+                    + list(range(400, 419)) + [421, 422, 423, 424, 425, 426, 428, 429, 431, 451]
+                    + [500, 501, 502, 503, 504, 505, 506, 507, 508, 510, 511])
+BODYLESS_CODES = (204, 304)
+# interim responses: any 1xx but 101 (Switching Protocols ends HTTP on the connection and is never sent unasked)
+INTERIM_CODES = [100, 102, 103, 110, 199]
+INTERIM_REASONS = {100: b"Continue", 102: b"Processing", 103: b"Early Hints"}
 
 
 def draw_spec(sim, method):
     spec = {}
     spec["interims"] = []
     for _ in range(sim.draw_weighted([(0, 6), (1, 2), (2, 1)], "ninterim")):
-        code = sim.draw_choice([100, 102, 103], "icode")
+        code = sim.draw_choice(INTERIM_CODES, "icode")
         hs = [(b"Link", b"</s.css>; rel=preload")] if sim.draw_bool(0.4, "ihdr") else []
         spec["interims"].append((code, hs))
-    code = sim.draw_weighted([(200, 8), (404, 2), (500, 1), (201, 1), (204, 2), (304, 2), (301, 1)], "code")
+    code = sim.draw_weighted([(200, 8), (404, 2), (500, 1), (201, 1), (204, 2), (304, 2), (301, 1), ("registered", 4), ("any", 2)], "code")
+    if code == "registered":
+        code = sim.draw_choice(REGISTERED_CODES, "registered_code")
+        sim.probe("status_code_from_registry")
+    elif code == "any":
+        code = 200 + sim.draw_int(0, 399, "any_code")       # any final status code, assigned or not
+        sim.probe("status_code_arbitrary")
     spec["code"] = code
     nh = sim.draw_int(0, 3, "nhdr")
     spec["headers"] = [sim.draw_choice(HDR_POOL, "hdr") for _ in range(nh)]
-    nobody = method == b"HEAD" or code in (204, 304)
+    nobody = method == b"HEAD" or code in BODYLESS_CODES
     if nobody:
         spec["framing"] = "none"
         spec["body"] = b""
@@ -170,7 +252,7 @@ def draw_spec(sim, method):
 
 def serialise_hand(sim, spec, seg):
     for code, hs in spec["interims"]:
-        line = b"HTTP/1.1 %d %s\r\n" % (code, {100: b"Continue", 102: b"Processing", 103: b"Early Hints"}[code])
+        line = b"HTTP/1.1 %d %s\r\n" % (code, INTERIM_REASONS.get(code, b"Interim"))
         seg.add("interim", line + b"".join(n + b": " + v + b"\r\n" for n, v in hs) + b"\r\n")
     version = sim.draw_choice([b"HTTP/1.1", b"HTTP/1.0", b"HTTP/1.1"], "version")
     spec["version"] = version
@@ -274,16 +356,30 @@ def one_round(sim, proto, t, round_no, flags, pre=None, on_body_lost=None):
     else:
         method, persistent = pre["method"], pre["persistent"]
     spec = draw_spec(sim, method)
-    if spec["framing"] == "close":
-        use_h11 = False          # h11 never produces a close-delimited body for an HTTP/1.1 client
+    # Family: the request carries a body that is still being transmitted while the response arrives / the connection goes
+    # away (a server may answer, or hang up, before it has read the whole request).  The body producer is driven by the
+    # scheduler ("tx_write"/"tx_finish" ops).
+    tx = None
+    if pre is None and method == b"POST" and sim.draw_bool(0.5, "request_body_in_transit"):
+        n = sim.draw_int(1, 12, "request_body_len")
+        tx = RequestBody(UNKNOWN_LENGTH if sim.draw_bool(0.4, "request_body_chunked") else n, n)
+        sim.probe("request_with_body_in_transit")
+    if spec["framing"] == "close" or tx is not None:
+        use_h11 = False          # h11 never produces a close-delimited body for an HTTP/1.1 client (and is fed body-less requests here)
     else:
         use_h11 = sim.draw_bool(0.5, "h11")
     nwritten = len(t.written)
-    req = None if pre is not None else _newclient.Request(method, b"/r%d" % round_no, Headers({b"host": [b"sim.example"]}), None, persistent=persistent)
+    req = None if pre is not None else _newclient.Request(method, b"/r%d" % round_no, Headers({b"host": [b"sim.example"]}), tx, persistent=persistent)
     results = [] if pre is None else pre["results"]
     rec = {"made": 0, "data": b"", "lost": [], "data_after_lost": False, "on_lost": on_body_lost}
     st = {"body": None, "attach": sim.draw_weighted([("callback", 4), ("later", 4), ("after_loss", 2)], "attach")}
     pause_p = sim.draw_choice([0.0, 0.0, 0.3], "pause_p")
+    abort_from = sim.draw_weighted([(None, 16), ("scheduler", 3), ("request-callback", 1), ("body-connectionMade", 1), ("body-dataReceived", 2)], "abort_from")
+    if abort_from == "request-callback":
+        abort_from = "callback"
+    abort_phase = sim.draw_choice(["body", "any"], "abort_phase") if abort_from == "scheduler" else "any"
+    knobs = {"abort_in_close_body": sim.draw_bool(0.75, "abort_in_close_body") if abort_from else False,
+             "abort_while_transmitting": sim.draw_bool(0.75, "abort_while_transmitting") if (abort_from and tx is not None) else False}
 
     def attach():
         resp = results[0]
@@ -296,8 +392,13 @@ def one_round(sim, proto, t, round_no, flags, pre=None, on_body_lost=None):
         if pre is None:
             results.append(res)
         sim.event("request-result", "F:" + res.type.__name__ if isinstance(res, Failure) else "response %d" % res.code)
-        if not isinstance(res, Failure) and st["attach"] == "callback" and len(results) == 1:
-            attach()
+        if not isinstance(res, Failure) and len(results) == 1:
+            if abort_from == "callback" and sim.draw_bool(0.5, "abort_before_attach"):
+                do_abort("request-callback")
+            if st["attach"] == "callback":
+                attach()
+            if abort_from == "callback":
+                do_abort("request-callback")
         return None
 
     if pre is None:
@@ -326,11 +427,34 @@ def one_round(sim, proto, t, round_no, flags, pre=None, on_body_lost=None):
     resp_close = spec["conn_close"] or not persistent or b"connection: close" in S[:seg.head_end].lower()
     pos = 0
     lost = [None]
+    lost_tx = [False]       # the request body was still in transit when the connection was lost
 
     def check():
         head_done = pos >= seg.head_end
         body_done = framing != "close" and pos >= seg.end
         sim.check("request-fires-at-most-once", len(results) <= 1, "deferred", lambda: "results %s" % show(results))
+        if ab["in_transit"] and lost[0] is not None:
+            # abort() met a request whose body was still being written: the loss it causes must fire the request Deferred
+            sim.check("request-fires-after-abort-in-transit", len(results) == 1, "head-complete" if head_done else "before-head",
+                      lambda: "abort() while the request body was in transit, connection lost after %d response bytes: results=%s" % (pos, show(results)))
+        in_transit = lost_tx[0] if lost[0] is not None else transmitting()
+        if in_transit:
+            # The request body is (was, when the connection went) still being written.  The statement's "once its headers
+            # are complete" gives no verdict on the moment then - the client hands the response over when the request has
+            # been written or the response is complete, and fails a request whose transmission the loss interrupted even
+            # if a header block had arrived.  What remains: nothing fires early, a complete response is handed over, and
+            # a lost connection fires the Deferred - exactly once (clause above), with a failure unless the response won.
+            if lost[0] is None:
+                if not results:
+                    sim.check("response-when-complete", not (framing != "close" and pos >= seg.end), "request-body-in-transit",
+                              lambda: "whole response delivered (%d bytes), request body still in transit, request Deferred silent" % pos)
+                    return
+            else:
+                sim.check("request-fires-when-lost", len(results) == 1, "request-body-in-transit",
+                          lambda: "connection lost after %d response bytes while the request body was being written%s: results=%s"
+                          % (pos, " (application abort)" if ab["done"] else "", show(results)))
+                if isinstance(results[0], Failure):
+                    return
         if head_done:
             sim.check("response-when-headers-complete", len(results) == 1 and not isinstance(results[0], Failure), framing,
                       lambda: "header block complete at %d, delivered %d bytes, results=%s wire=%r" % (seg.head_end, pos, show(results), S[:pos]))
@@ -361,7 +485,7 @@ def one_round(sim, proto, t, round_no, flags, pre=None, on_body_lost=None):
             sim.check("body-made-once", rec["made"] == 1, "body", "makeConnection x%d" % rec["made"])
             sim.check("no-data-after-lost", not rec["data_after_lost"], "body", "dataReceived after connectionLost")
             if body_done or lost[0] is not None:
-                sim.check("body-connectionLost-once", len(rec["lost"]) == 1, framing,
+                sim.check("body-connectionLost-once", len(rec["lost"]) == 1, framing + ("+abort" if ab["done"] else ""),
                           lambda: "connectionLost x%d (body_done=%s lost=%s) reasons=%s" % (len(rec["lost"]), body_done, lost[0] is not None, show(rec["lost"])))
                 rs = rec["lost"][0]
                 if body_done:
@@ -382,7 +506,16 @@ def one_round(sim, proto, t, round_no, flags, pre=None, on_body_lost=None):
     def lose():
         reason = Failure(error.ConnectionDone() if (clean or t.disconnecting) else error.ConnectionLost())
         lost[0] = reason
+        lost_tx[0] = transmitting()
+        if lost_tx[0]:
+            sim.fault("connection_lost_with_request_body_in_transit")
         sim.event("lose", pos, reason.type.__name__)
+        if ab["done"]:
+            sim.fault("connection_lost_by_application_abort")
+            if st["body"] is not None and not rec["lost"]:
+                sim.probe("abort_loss_with_body_consumer_attached")
+            if not results:
+                sim.probe("abort_loss_before_header_block")
         if pos < total:
             sim.fault("connection_lost_inside_response")
             flags["cut_inside"] = flags.get("cut_inside", 0) + (1 if pos > 0 else 0)
@@ -390,6 +523,46 @@ def one_round(sim, proto, t, round_no, flags, pre=None, on_body_lost=None):
             sim.fault("connection_lost_after_response")
         with sim.guard("raised", "connectionLost"):
             t.lose(reason)
+
+    # Family: the APPLICATION gives the connection up - HTTP11ClientProtocol.abort() ("close the connection and cause all
+    # outstanding request Deferreds to fire with an error").  It is one more cause of connection loss at a byte position:
+    # the transport is told to close, stops reading, and reports the loss later (the scheduler's "lose" op).  abort() is
+    # called by the scheduler between deliveries, or re-entrantly from application code the client calls: the request
+    # callback, the body consumer's connectionMade, the body consumer's dataReceived (then the rest of that delivery is
+    # still parsed with the abort pending).  The expectations are the statement's, unchanged: a failure on the request
+    # Deferred if the header block is incomplete, else the body consumer's connectionLost exactly once with
+    # ResponseDone / PotentialDataLoss / a failure according to what had arrived.
+    ab = {"done": False, "in_transit": False}
+
+    def abort_allowed():
+        if ab["done"] or lost[0] is not None or t.disconnecting or proto.state == "CONNECTION_LOST":
+            return False
+        if framing == "close" and pos >= seg.head_end and not knobs["abort_in_close_body"]:
+            return False      # knob: see ASSUMPTIONS (repaired defect precondition avoided in a quarter of the abort rounds)
+        if transmitting() and not knobs["abort_while_transmitting"]:
+            return False      # knob: likewise
+        return True
+
+    def transmitting():
+        return tx is not None and tx.open
+
+    def do_abort(where):
+        if not abort_allowed():
+            return
+        ab["done"] = True
+        if transmitting():
+            ab["in_transit"] = True
+            sim.probe("abort_with_request_body_in_transit")
+        sim.event("abort", where, pos)
+        sim.probe("abort_from_" + where)
+        with sim.guard("raised", "abort"):
+            proto.abort()
+
+    def on_made(body):
+        if abort_from == "body-connectionMade":
+            do_abort("body-connectionMade")
+
+    rec["on_made"] = on_made
 
     # Family: the body consumer hangs up from inside its own dataReceived and the transport reports the loss at once
     # (in-memory / test transports do; ITransport does not forbid it), i.e. connectionLost reaches the client protocol
@@ -401,6 +574,8 @@ def one_round(sim, proto, t, round_no, flags, pre=None, on_body_lost=None):
         hang_target = len(spec["body"]) if sim.draw_bool(0.7, "hang_at_end") else sim.draw_int(1, len(spec["body"]), "hang_after")
 
     def on_data(body):
+        if abort_from == "body-dataReceived" and sim.draw_bool(0.4, "abort_in_data"):
+            do_abort("body-dataReceived")
         if hang_target is None or lost[0] is not None or len(rec["data"]) < hang_target:
             return
         if rec["data"] != seg.body_received(pos):
@@ -422,7 +597,10 @@ def one_round(sim, proto, t, round_no, flags, pre=None, on_body_lost=None):
         ops = [("deliver", 12 if can_deliver else 0),
                ("attach", 3 if can_attach else 0),
                ("resume", 4 if can_resume else 0),
-               ("lose", (6 if at_end else 0) + (1 if (lost[0] is None and not t.reading and pos < k) else 0))]
+               ("lose", (6 if at_end else 0) + (1 if (lost[0] is None and not t.reading and pos < k) else 0)),
+               ("abort", 2 if (abort_from == "scheduler" and abort_allowed() and (abort_phase == "any" or pos >= seg.head_end)) else 0),
+               ("tx_write", 10 if (tx is not None and tx.open and tx.left and lost[0] is None) else 0),
+               ("tx_finish", 10 if (tx is not None and tx.open and not tx.left and lost[0] is None) else 0)]
         if not any(w for _, w in ops):
             break
         op = sim.draw_weighted(ops, "op")
@@ -447,6 +625,20 @@ def one_round(sim, proto, t, round_no, flags, pre=None, on_body_lost=None):
             if not t.reading:
                 # the proxy no longer forwards (response finished / parser detached): the harness owns the real transport
                 t.resumeProducing()
+        elif op == "abort":
+            do_abort("scheduler")
+        elif op == "tx_write":
+            sim.event("tx-write")
+            with sim.guard("raised", "request-body-write"):
+                tx.write(sim.draw_int(1, 6, "tx_piece"))
+            t.take()
+        elif op == "tx_finish":
+            sim.event("tx-finish")
+            if not results:
+                sim.probe("request_body_finished_after_response_bytes" if pos else "request_body_finished_before_response")
+            with sim.guard("raised", "request-body-finish"):
+                tx.finish()
+            t.take()
         else:
             lose()
         check()
@@ -460,6 +652,9 @@ def one_round(sim, proto, t, round_no, flags, pre=None, on_body_lost=None):
         attach()                      # DEFERRED_CLOSE path: body handed over after everything happened
         sim.probe("attach_after_end")
         check()
+        if ab["done"] and lost[0] is None:
+            lose()                    # the consumer attached last of all aborted the (idle) connection: the transport reports the close
+            check()
     if lost[0] is None and not (flags.get("second_issued") and round_no == 0):
         # only reachable on a quiescent persistent connection
         sim.check("quiescent-after-complete-response", proto.state == "QUIESCENT" and pos >= total, "state",
@@ -538,6 +733,14 @@ MUTANTS = [
     "_newclient.py _bodyDataFinished_CONNECTED: connectionLost delivered twice -> caught (body-connectionLost-once)",
     "_newclient.py _finishResponse_WAITING: transport not resumed before going QUIESCENT -> caught (quiescent-transport-resumed) [clause added for it]",
     "http.py _dataReceived_TRAILER: trailer lines delivered as body -> caught (body-bytes-equal:chunked)",
+    "_newclient.py NO_BODY_CODES gains 205 (seed C23-r5b) -> caught (response-length:cl/chunked/close) [status-code family added for it]",
+    "_newclient.py allHeadersReceived: only 100/102/103 treated as interim -> caught (no-early-result, response-code)",
+    "_newclient.py _connectionLost_ABORTING: parser not disconnected -> caught (failure-when-lost-before-headers, body-connectionLost-once:*+abort)",
+    "_newclient.py no _finishResponse handler in state ABORTING (UNCHANGED TREE, genuine) -> body-connectionLost-once:close+abort",
+    "_newclient.py abort() in state TRANSMITTING leaves the request Deferred unchained (UNCHANGED TREE, genuine) -> request-fires-after-abort-in-transit:before-head",
+    "_newclient.py _connectionLost_TRANSMITTING: errback skipped -> caught (request-fires-when-lost:request-body-in-transit)",
+    "_newclient.py _finishResponse_TRANSMITTING: chainDeferred dropped -> caught (response-when-complete:request-body-in-transit)",
+    "_newclient.py cbRequestWritten: no chaining when the response Deferred has already fired -> caught (response-when-headers-complete)",
     "http.py _dataReceived_BODY: '>=' -> '>' -> survived: equivalent (only adds an empty dataCallback(b''))",
     "_newclient.py isConnectionControlHeader: HEAD Content-Length not kept as entity header -> survived: outside the statement (header classification only)",
 ]
